@@ -2,7 +2,7 @@
   C08 (bytecode checker): the check on the DUMPED instruction syntax is the check on interpreter
   code — `shapeV` reads off the dump `viewS i` exactly the shape of `i`.
 -/
-import Gojq.Model.SafeVM
+import Gojq.Model.SafeVM2
 namespace Gojq.SafeVM
 open Gojq Gojq.VM
 
